@@ -8,6 +8,8 @@ Pkg1 == [o \in R1 |-> 1]
 Pkg12 == [o \in R12 |-> IF o < 200 THEN 1 ELSE 2]
 Slots1 == [o \in R1 |-> IF o = 101 THEN {1} ELSE {1, 2}]
 Slots12 == [o \in R12 |-> IF o = 102 THEN {1, 2} ELSE {1}]
+Seq2a == <<1, 2, 101, 102>>
+Seq2b == <<1, 2, 101, 102, 201>>
 Seq3a == <<1, 2, 3, 101, 102>>
 Seq4a == <<1, 2, 3, 4, 101, 102>>
 Seq3b == <<1, 2, 3, 101, 102, 201>>
